@@ -248,7 +248,9 @@ impl AymPrecise {
         self.fir_index = (self.fir_index + 1) % (FIR_SIZE / DECIMATE_FACTOR - 1);
         for i in (0..DECIMATE_FACTOR).rev() {
             self.x += self.step;
-            if self.x >= 1.0 {
+            // step is greater than 1 for the sample rates below `clock_rate / 64`,
+            // so generator may need to be advanced several times
+            while self.x >= 1.0 {
                 self.x -= 1.0;
                 self.interpolator_left.y[0] = self.interpolator_left.y[1];
                 self.interpolator_left.y[1] = self.interpolator_left.y[2];
